@@ -12,7 +12,7 @@ import timinggen as tg
 from common import F, Toks, qtok
 
 ID = 'C07'
-GEN_SECTIONS = ['GenTiming', 'FP_timeline', 'FP_get_block', 'FP_store_events']
+GEN_SECTIONS = ['GenTiming', 'FP_timeline', 'FP_get_block']
 COQ_TARGETS = ['Props/C07.vo']
 EXTRACT_TARGETS = ['Extract/Ex_timing.vo']
 RUNNER = 'timing'
@@ -34,6 +34,8 @@ MANIFEST = {
     'technique': 'Rocq/Coq proof over a Gallina model with source-derived end-time tables + extraction-based correspondence',
 }
 BUDGET = {'quick': 80, 'thorough': 1500}
+ESCALATE_BUDGET = 150
+SEARCH_BUDGET = 120
 MISMATCH_BUDGET = 0.0
 RULE = ('sequences of 1-9 blocks of compatible raster-aligned events (block/sinc RF with use tags, trapezoids incl. triangles, '
         'extended trapezoids also with tt[0]>0, arbitrary gradients, ADCs, triggers, labels, delays, plain-float delays) on 5 '
